@@ -331,8 +331,10 @@ def _lattice(tier, seed):
                         add("C", meth, b, s, x, e, "default", 1000)
     # D: every iteration cap from 6 up to past convergence: somewhere in the sweep the cap falls between the iteration
     #    counts of the two molecules, so one is frozen as converged while the other runs into the cap
-    capsD = range(6, 31) if quick else range(4, 61)
-    for b in (("CH4", "H2O"), ("H2CO", "OH-")) + (() if quick else (("CH3", "H2O"), ("N2", "H2CO", "NH4+"))):
+    #    (N2 / SO2 are the fastest / slowest converging members of the alphabet: 5 vs 13 adaptive passes, 7 vs 12 KSA,
+    #    8 vs 14 Pulay, 16 vs 29 fixed mixing at eps 1e-6, so a wide band of caps splits the batch)
+    capsD = range(4, 31) if quick else range(3, 61)
+    for b in (("N2", "SO2"), ("H2CO", "OH-")) + (() if quick else (("SO2", "CH4"), ("CH3", "H2O"), ("N2", "H2CO", "NH4+"))):
         for s in ("fixed0.3", "adaptive", "pulay", "ksa") if quick else tuple(SOLVERS):
             for e in (1e-6,) if quick else (1e-4, 1e-6, 1e-8):
                 for cap in capsD:
@@ -391,6 +393,8 @@ def _evaluate(chk, case, out, stats):
         )  # fmt: skip
         return
     nconv = sum(1 for f in out["nc"] if not f)
+    if 0 < nconv < len(out["nc"]):
+        stats["split_calls"] = stats.get("split_calls", 0) + 1  # one call, some rows converged and some capped
     stats["mol_conv"] += nconv
     stats["mol_notconv"] += len(out["nc"]) - nconv
     chk.excluded += len(out["nc"]) - nconv
@@ -450,6 +454,7 @@ def run(chk, tier, seed):
                  max_comm_ratio_rhf=0.0, max_comm_ratio_uhf=0.0, max_trace_ratio=0.0, max_idem_ratio=0.0, max_eelec=0.0)  # fmt: skip
     for c, o in zip(cases, results):
         _evaluate(chk, c, o, stats)
+    chk.extra["calls_with_split_outcome"] = stats.get("split_calls", 0)
     chk.extra["molecules_checked_converged"] = stats["mol_conv"]
     chk.extra["molecules_flagged_notconverged"] = stats["mol_notconv"]
     chk.extra["calls_notconverged_at_full_cap"] = stats["notconv_full_cap"]
